@@ -1,1 +1,114 @@
-(* Props/C16.v -- stub, to be filled in *)
+(* Props/C16.v -- property theorems only: Theorem / exact lemma / Check (pins the statement) / Print Assumptions.
+
+   C16: the threaded dot product (Vector<f64>::dot_f64) equals the sequential one for every length and
+   every worker count, and does not depend on thread scheduling.
+
+   Proved here (all lengths, all worker counts t >= 1, all data, all completion orders):
+     chunks_cover           the (start,end) pairs are in range, contiguous, start at 0, end at len, and the
+                            slices concatenate to the whole vector (every index exactly once) -- including
+                            len < t, len = t, t not dividing len;
+     pardot_closed_form     for ANY arithmetic the result is ((0 + d_0) + d_1) + ... + d_(t-1), d_i the sequential dot
+                            (from 0) of slice i: a reassociation fixed by (len, t) alone;
+     pardot_exact           over any ring the chunked sum equals the sequential dot;
+     schedule_independent   for ANY arithmetic (floats included) and every completion order sigma of the
+                            workers the joined result is the same value: it is the same expression, so on
+                            floats it is bit-identical.
+   Not proved (DESIGN section 10): absence of data races / torn reads (Rust's thread::scope borrowing
+   rules, trusted); that num_cpus::get() follows the affinity mask (observed by the executor in-process
+   on every run).  P3 is proved as well: pardot_exact_float -- over IEEE binary64 (primitive floats related to Flocq's
+   binary_float), integer-valued data with sum |v_i w_i| < 2^53 gives a result bit-identical to the sequential dot for
+   every worker count.  The accuracy bound on arbitrary data ("up to reassociation") is searched, not proved. *)
+From Coq Require Import List Arith Permutation QArith Qcanon ZArith.
+From OV Require Import Base.Panic Base.Arith Model.Vector Model.ParDot Proofs.ParDot Proofs.ParDotFloat Inst.QcInst Inst.FloatInst.
+(* the primitive-float modules are deliberately NOT imported here: Print Assumptions then shows the qualified names
+   (PrimFloat.add, FloatAxioms.add_spec, ...) that the audit's allow-list recognises; float data for the examples is
+   defined in Proofs/ParDotFloat.v *)
+Import ListNotations.
+Local Open Scope nat_scope.
+
+Theorem chunks_cover : forall X (v : list X) t, 1 <= t ->
+  (forall i, i < t -> let '(s, e) := chunk_bounds (length v) t i in s <= e <= length v) /\
+  (forall i, S i < t -> snd (chunk_bounds (length v) t i) = fst (chunk_bounds (length v) t (S i))) /\
+  fst (chunk_bounds (length v) t 0) = 0 /\ snd (chunk_bounds (length v) t (t - 1)) = length v /\
+  concat (slices v t) = v.
+Proof. intros X v t H. exact (chunks_cover_lemma v t H). Qed.
+Check chunks_cover : forall X (v : list X) t, 1 <= t ->
+  (forall i, i < t -> let '(s, e) := chunk_bounds (length v) t i in s <= e <= length v) /\
+  (forall i, S i < t -> snd (chunk_bounds (length v) t i) = fst (chunk_bounds (length v) t (S i))) /\
+  fst (chunk_bounds (length v) t 0) = 0 /\ snd (chunk_bounds (length v) t (t - 1)) = length v /\
+  concat (slices v t) = v.
+Print Assumptions chunks_cover.
+
+(* non-vacuity: t does not divide len; len < t *)
+Example chunks_cover_nonvacuous :
+  1 <= 3 /\ slices [10; 11; 12; 13; 14; 15; 16] 3 = [[10; 11]; [12; 13]; [14; 15; 16]] /\
+  1 <= 5 /\ slices [10; 11; 12] 5 = [[]; []; []; []; [10; 11; 12]].
+Proof. repeat split; auto with arith. Qed.
+
+Theorem pardot_exact : forall (A : Arith), RingLaws A -> forall t (v w : list A),
+  1 <= t -> length v = length w -> pardot t v w = dot v w.
+Proof. intros A RL t v w Ht Hl. exact (pardot_exact_lemma RL t v w Ht Hl). Qed.
+Check pardot_exact : forall (A : Arith), RingLaws A -> forall t (v w : list A),
+  1 <= t -> length v = length w -> pardot t v w = dot v w.
+Print Assumptions pardot_exact.
+
+Lemma AQ_RingLaws : RingLaws AQ.
+Proof. constructor. exact Qcrt. Qed.
+
+Example pardot_exact_nonvacuous :
+  RingLaws AQ /\ 1 <= 3 /\
+  length [q 1 2; q 3 1; q (-2) 3; q 5 1; q 1 1] = length [q 2 1; q 1 3; q 3 1; q 1 5; q (-7) 2] /\
+  pardot (A := AQ) 3 [q 1 2; q 3 1; q (-2) 3; q 5 1; q 1 1] [q 2 1; q 1 3; q 3 1; q 1 5; q (-7) 2]
+    = Ok (q (-5) 2).
+Proof. split; [exact AQ_RingLaws|]. repeat split; auto with arith. Qed.
+
+(* for ANY arithmetic, floats included: the value is this fixed reassociation of the sequential sum *)
+Theorem pardot_closed_form : forall (A : Arith) t (v w : list A), 1 <= t -> length v = length w ->
+  pardot t v w = Ok (fold_left (fun acc i => add acc (dot_raw (slice_of v t i) (slice_of w t i))) (seq 0 t) zero).
+Proof. intros A t v w Ht Hl. exact (pardot_closed_form_lemma t v w Ht Hl). Qed.
+Check pardot_closed_form : forall (A : Arith) t (v w : list A), 1 <= t -> length v = length w ->
+  pardot t v w = Ok (fold_left (fun acc i => add acc (dot_raw (slice_of v t i) (slice_of w t i))) (seq 0 t) zero).
+Print Assumptions pardot_closed_form.
+
+Theorem schedule_independent : forall (A : Arith) sigma t (v w : list A),
+  Permutation sigma (seq 0 t) -> run_sched sigma t v w = pardot t v w.
+Proof. intros A sigma t v w HP. exact (schedule_independent_lemma sigma t v w HP). Qed.
+Check schedule_independent : forall (A : Arith) sigma t (v w : list A),
+  Permutation sigma (seq 0 t) -> run_sched sigma t v w = pardot t v w.
+Print Assumptions schedule_independent.
+
+(* non-vacuity, at the float instance: the last worker finishes first; the value is the chunked float sum
+   (0.1*3 + 0.2*3) + ... evaluated by the IEEE machine *)
+Example schedule_independent_nonvacuous :
+  Permutation [2; 0; 1] (seq 0 3) /\
+  run_sched (A := AF) [2; 0; 1] 3 ex_sv ex_sw = pardot (A := AF) 3 ex_sv ex_sw /\
+  is_ok (pardot (A := AF) 3 ex_sv ex_sw) = true.
+Proof.
+  split.
+  - apply perm_trans with [0; 2; 1]; [apply perm_swap|]. apply perm_skip. apply perm_swap.
+  - split; vm_compute; reflexivity.
+Qed.
+
+(* ---- P3: IEEE binary64, integer-valued data with sum |v_i w_i| < 2^53: bit-identical to the sequential product ----
+   [ExactW x z]: the primitive float x is finite and its real value (Flocq's B2R of Prim2B x) is the integer z.
+   [audit_separator]: see Props/C15.v -- ends the axiom list of the preceding theorem for the driver's parser. *)
+Lemma audit_separator : True.
+Proof. exact I. Qed.
+
+Theorem pardot_exact_float : forall t (v w : list AF) (zs ws : list Z),
+  1 <= t -> Forall2 ExactW v zs -> Forall2 ExactW w ws -> length zs = length ws ->
+  (zadot zs ws < 2 ^ 53)%Z -> pardot (A := AF) t v w = dot (A := AF) v w.
+Proof. intros t v w zs ws Ht Hv Hw Hl Hb. exact (pardot_exact_float_lemma t v w zs ws Ht Hv Hw Hl Hb). Qed.
+Check pardot_exact_float : forall t (v w : list AF) (zs ws : list Z),
+  1 <= t -> Forall2 ExactW v zs -> Forall2 ExactW w ws -> length zs = length ws ->
+  (zadot zs ws < 2 ^ 53)%Z -> pardot (A := AF) t v w = dot (A := AF) v w.
+Print Assumptions pardot_exact_float.
+Print Assumptions audit_separator.
+
+Example pardot_exact_float_nonvacuous :
+  1 <= 3 /\ Forall2 ExactW ex_fv ex_zv /\ Forall2 ExactW ex_fw ex_zw /\ length ex_zv = length ex_zw /\
+  (zadot ex_zv ex_zw < 2 ^ 53)%Z /\ is_ok (pardot (A := AF) 3 ex_fv ex_fw) = true.
+Proof.
+  split; [auto with arith|]. split; [exact ex_fv_exact|]. split; [exact ex_fw_exact|].
+  split; [reflexivity|]. split; [reflexivity|]. vm_compute. reflexivity.
+Qed.
